@@ -163,7 +163,7 @@ def run(chk):
                 'object before/after (diagnostic); (d) 8 reader threads x 150 random queries against precomputed answers on 30% of the graphs; (e) Obographs documents A,B,A,.. '
                 'through the shared default factories of both loaders vs fresh factories (incl. a slim document with dangling edges loaded before and after the full one), HPOA files A,B,A through one loader instance; HPOA files whose frequencies depend on the '
                 'loader configuration (frequency terms, percentages, negated lines) through five differently configured loaders (cohort size, salvaging) in one process, in two processes with opposite orders: '
-                'every (configuration, file) result must be the same')
+                'every (configuration, file) result must be the same; (f) ontology-level queries (lookups of primary / alternate / obsolete / absent ids as CURIE, TermId and term, membership, names, len, both listings, version, root, closures) on three fresh loads per loader: fixed order, reverse order, shuffled order with an open term_ids and an open terms iterator - same answers, and the open iterators finish with the fresh listing')
     if failing:
         report(chk, cases, obs, failing)
 
@@ -174,6 +174,8 @@ def sig_of(problems):
         return 'C12:interleaved-iterators'
     if 'thread' in p:
         return 'C12:reader-threads'
+    if 'ontology query' in p:
+        return 'C12:ontology-history'
     if 'loads differently' in p or 'default factories' in p or 'loads depend on the order' in p:
         return 'C12:loader-history'
     if 'partially consumed' in p:
